@@ -292,3 +292,192 @@ def half_hypercube(ctx, repo: Repo, pid: str):
     ctx.instance("SELECT")
     ctx.check("q_in_upper_sphere(p)" in txt.replace(" ", "") or "q_in_upper_sphere(" in txt, "SELECT", f"{pid}.half.predicate",
               "nodes are selected by the canonical-hemisphere test on their projections", where, witness="predicate not found")
+
+
+# ---------------------------------------------------------------------------------------------------------------------
+def _tol_value(repo, m, e):
+    """numeric value of a tolerance expression if it is a compile-time constant, else None"""
+    if e is None:
+        return None
+    if isinstance(e, ast.Constant) and isinstance(e.value, (int, float)) and not isinstance(e.value, bool):
+        return float(e.value)
+    s = src(e).replace(" ", "")
+    if s in ("np.finfo(float).eps", "np.finfo(np.float64).eps", "numpy.finfo(float).eps", "sys.float_info.epsilon", "np.spacing(1)", "np.spacing(1.0)"):
+        return 2.220446049250313e-16
+    if s in ("np.finfo(np.float32).eps",):
+        return 1.1920929e-07
+    if isinstance(e, ast.BinOp) and isinstance(e.op, (ast.Mult, ast.Div, ast.Pow)):
+        a, b = _tol_value(repo, m, e.left), _tol_value(repo, m, e.right)
+        if a is None or b is None:
+            return None
+        try:
+            return a * b if isinstance(e.op, ast.Mult) else (a / b if isinstance(e.op, ast.Div) else a ** b)
+        except (ZeroDivisionError, OverflowError):
+            return None
+    if isinstance(e, ast.UnaryOp) and isinstance(e.op, ast.USub):
+        a = _tol_value(repo, m, e.operand)
+        return -a if a is not None else None
+    if isinstance(e, (ast.Name, ast.Attribute)):
+        try:
+            v = repo.const_value(m, e)
+            return float(v) if isinstance(v, (int, float)) and not isinstance(v, bool) else None
+        except (KeyError, AnalysisError, TypeError):
+            return None
+    return None
+
+
+TOL_FLOOR = 1e-12
+
+
+def float_tolerances(ctx, repo: Repo, pid: str, fnames=("_add_edges_of_len",)):
+    """FLOATTOL: coordinates of level-k nodes are k-fold recursive midpoints, so computed distances carry rounding error that grows
+    with the level; a comparison of such a distance with the expected edge length that is exact (==) or uses tolerances below
+    1e-12 behaves like exact equality and silently drops edges (hence nodes) of the lattice from some level on."""
+    m = repo.module(PO)
+    n_sites = 0
+    for ci in m.classes.values():
+        for fi in ci.methods.values():
+            if fi.name not in fnames:
+                continue
+            ctx.analysed(fi)
+            float_names = set()
+            for n in ast.walk(fi.node):
+                if isinstance(n, ast.Assign) and len(n.targets) == 1 and isinstance(n.targets[0], ast.Name) and isinstance(n.value, ast.Call) and \
+                        (repo.dotted_of(fi.module, n.value.func) or src(n.value.func)).split(".")[-1] in ("norm", "dist_on_sphere", "sqrt", "dist", "euclidean"):
+                    float_names.add(n.targets[0].id)
+            for n in ast.walk(fi.node):
+                if isinstance(n, ast.Call) and (repo.dotted_of(fi.module, n.func) or "") in ("numpy.isclose", "numpy.allclose", "math.isclose"):
+                    d = repo.dotted_of(fi.module, n.func)
+                    n_sites += 1
+                    ctx.instance("FLOATTOL")
+                    kw = {k.arg: k.value for k in n.keywords}
+                    if d == "math.isclose":
+                        r_e, a_e, r_def, a_def = kw.get("rel_tol"), kw.get("abs_tol"), 1e-9, 0.0
+                    else:
+                        r_e = kw.get("rtol", n.args[2] if len(n.args) > 2 else None)
+                        a_e = kw.get("atol", n.args[3] if len(n.args) > 3 else None)
+                        r_def, a_def = 1e-5, 1e-8
+                    r_v = r_def if r_e is None else _tol_value(repo, fi.module, r_e)
+                    a_v = a_def if a_e is None else _tol_value(repo, fi.module, a_e)
+                    if r_v is None or a_v is None:
+                        ctx.inconclusive("FLOATTOL", f"{pid}.edge_tolerance", "tolerance of the edge-length test is not a compile-time constant",
+                                         fi.where, src(n)[:120])
+                    elif max(r_v, a_v) < TOL_FLOOR:
+                        ctx.violate("FLOATTOL", f"{pid}.edge_tolerance", "the edge-length criterion compares a computed distance with the expected "
+                                    "length at (near) machine precision: rounding error of recursively halved coordinates exceeds it from some "
+                                    "subdivision level on, edges are silently not created and the level's node set is incomplete", fi.where,
+                                    src(n)[:140], witness=f"rtol={r_v:g}, atol={a_v:g} (< {TOL_FLOOR:g})")
+                    else:
+                        ctx.ok("FLOATTOL", f"{pid}.edge_tolerance", f"edge-length test is tolerance based (rtol={r_v:g}, atol={a_v:g})", fi.where, src(n)[:120])
+                if isinstance(n, ast.Compare) and len(n.ops) == 1 and isinstance(n.ops[0], (ast.Eq, ast.NotEq)):
+                    ops_ = [n.left] + n.comparators
+                    if any(isinstance(o, ast.Name) and o.id in float_names for o in ops_):
+                        n_sites += 1
+                        ctx.instance("FLOATTOL")
+                        ctx.violate("FLOATTOL", f"{pid}.edge_tolerance", "a computed distance is compared with `==`: exact equality of rounded "
+                                    "floating-point values drops edges of the lattice", fi.where, src(n)[:120], witness="exact comparison")
+    if n_sites == 0:
+        ctx.inconclusive("FLOATTOL", f"{pid}.edge_tolerance", "no edge-length comparison found in the edge-adding routine", f"{m.relpath}:Polytope._add_edges_of_len")
+
+
+def second_neighbour_search(ctx, repo: Repo, pid: str):
+    """CANDIDATES: the candidate partners for new edges are ALL second neighbours of a node: the walk over the direct neighbours
+    must not be filtered (a pruned walk loses the partners that are reachable only through the pruned nodes)."""
+    m = repo.module(PO)
+    fi = m.functions.get("second_neighbours")
+    if fi is None:
+        raise AnalysisError("anchor vanished: polytopes.second_neighbours")
+    ctx.analysed(fi)
+    ctx.instance("CANDIDATES")
+    params = fi.params()
+    gname, nname = (params + ["graph", "node"])[:2]
+
+    def is_direct(e):
+        """graph.neighbors(node) / graph[node] / graph.adj[node], possibly wrapped in list()/set()/tuple()/iter()"""
+        while isinstance(e, ast.Call) and isinstance(e.func, ast.Name) and e.func.id in ("list", "set", "tuple", "iter", "sorted", "frozenset") and e.args:
+            e = e.args[0]
+        if isinstance(e, ast.Call) and isinstance(e.func, ast.Attribute) and e.func.attr in ("neighbors", "adj", "__getitem__") and \
+                src(e.func.value) == gname and e.args and src(e.args[0]) == nname:
+            return True
+        if isinstance(e, ast.Subscript) and src(e.value) in (gname, gname + ".adj") and src(e.slice) == nname:
+            return True
+        return False
+    defs = {}
+    for n in ast.walk(fi.node):
+        if isinstance(n, ast.Assign) and len(n.targets) == 1 and isinstance(n.targets[0], ast.Name):
+            defs.setdefault(n.targets[0].id, []).append(n.value)
+    direct_names = {k for k, vs in defs.items() if all(is_direct(v) for v in vs)}
+
+    def classify(e, depth=0):
+        """'full' | 'filtered' | None for an expression that is iterated as the set of intermediate nodes"""
+        if depth > 4:
+            return None
+        if is_direct(e):
+            return "full"
+        if isinstance(e, ast.Name):
+            if e.id in direct_names:
+                return "full"
+            vs = defs.get(e.id)
+            if vs:
+                ks = [classify(v, depth + 1) for v in vs]
+                if any(k == "filtered" for k in ks):
+                    return "filtered"
+                if all(k == "full" for k in ks):
+                    return "full"
+            return None
+        if isinstance(e, (ast.ListComp, ast.GeneratorExp, ast.SetComp)) and len(e.generators) == 1:
+            g = e.generators[0]
+            base = classify(g.iter, depth + 1)
+            if base is None:
+                return None
+            if g.ifs:
+                return "filtered"
+            if isinstance(e.elt, ast.Name) and isinstance(g.target, ast.Name) and e.elt.id == g.target.id:
+                return base
+            return None
+        if isinstance(e, ast.Subscript) and isinstance(e.slice, ast.Slice):
+            b = classify(e.value, depth + 1)
+            return "filtered" if b else None
+        return None
+    verdicts = []
+    # iteration sites whose loop variable is used as the intermediate node:  graph.neighbors(v) / graph[v]
+    for n in ast.walk(fi.node):
+        gens = []
+        if isinstance(n, (ast.ListComp, ast.GeneratorExp, ast.SetComp)):
+            gens = [(g.target, g.iter, g.ifs, n) for g in n.generators]
+        elif isinstance(n, ast.For):
+            gens = [(n.target, n.iter, [], n)]
+        for tg, it_, ifs, holder in gens:
+            if not isinstance(tg, ast.Name):
+                continue
+            v = tg.id
+            used_as_intermediate = any(
+                (isinstance(c, ast.Call) and isinstance(c.func, ast.Attribute) and c.func.attr == "neighbors" and src(c.func.value) == gname and
+                 c.args and src(c.args[0]) == v) or
+                (isinstance(c, ast.Subscript) and src(c.value) in (gname, gname + ".adj") and src(c.slice) == v)
+                for c in ast.walk(holder))
+            if not used_as_intermediate:
+                continue
+            k = classify(it_)
+            if k == "full" and ifs:
+                k = "filtered"
+            if k == "full" and isinstance(holder, ast.For):
+                # a `continue`/`if` on the intermediate node at the top of the loop body is a filter as well
+                for st in holder.body[:2]:
+                    if isinstance(st, ast.If) and v in {x.id for x in ast.walk(st.test) if isinstance(x, ast.Name)} and \
+                            any(isinstance(y, ast.Continue) for y in ast.walk(st)):
+                        k = "filtered"
+            verdicts.append((k, src(it_)[:80]))
+    if not verdicts:
+        ctx.inconclusive("CANDIDATES", f"{pid}.second_neighbours", "walk over the direct neighbours not recognised", fi.where)
+    elif any(k == "filtered" for k, _ in verdicts):
+        ctx.violate("CANDIDATES", f"{pid}.second_neighbours", "the search for second neighbours walks only through SOME of the direct neighbours: "
+                    "partners that are reachable only through a skipped node never become candidates, their edges and the midpoints "
+                    "on them are missing from the next level", fi.where, "for neighbor_list in [graph.neighbors(n) for n in ...]",
+                    witness=str([t for k, t in verdicts if k == "filtered"]))
+    elif all(k == "full" for k, _ in verdicts):
+        ctx.ok("CANDIDATES", f"{pid}.second_neighbours", "second neighbours are collected through every direct neighbour", fi.where,
+               derived=str([t for _, t in verdicts]))
+    else:
+        ctx.inconclusive("CANDIDATES", f"{pid}.second_neighbours", "intermediate-node set of the second-neighbour walk not recognised", fi.where,
+                         witness=str(verdicts))
